@@ -217,4 +217,40 @@ theorem handle_outlives_mesh {w w' : World} {m h sid : Nat} {s : Storage} {r : R
   rw [h1]
   exact getS_gc_of_owned h2 h3
 
+
+/-! ### step-level forms (no garbage is produced by these calls) -/
+
+theorem owned_mono_handles {w w1 : World} (hm : w1.meshes = w.meshes) (hh : ∀ p ∈ w.handles, p ∈ w1.handles) {i : Nat}
+    (h : owned w i = true) : owned w1 i = true := by
+  rcases (owned_iff w i).mp h with ⟨p, hp, e⟩ | ⟨me, hme, e⟩
+  · exact (owned_iff w1 i).mpr (Or.inl ⟨p, hh p hp, e⟩)
+  · exact (owned_iff w1 i).mpr (Or.inr ⟨me, hm ▸ hme, e⟩)
+
+theorem request_step_existing {w : World} (hi : Inv w) {m h : Nat} {k : Kind} {ty : Ty} {name : String} {d : Int} {sid : Nat}
+    (hm : (getM w m).isSome = true) (hf : freeSlot w h = true) (hfind : find w m k ty name = some sid) :
+    step w (.request m h k ty name d) = .ok (addHandle w h sid, .ok) := by
+  refine step_of_core_noGarbage (request_existing hm hf hfind) ?_
+  intro s hs
+  exact owned_mono_handles (w := w) (w1 := addHandle w h sid) rfl (fun p hp => List.mem_cons_of_mem _ hp) (hi.noGarbage s hs)
+
+theorem request_step_creates {w : World} (hi : Inv w) {m h : Nat} {k : Kind} {ty : Ty} {name : String} {d : Int} {me : Mesh}
+    (hm : getM w m = some me) (hf : freeSlot w h = true) (hfind : find w m k ty name = none) :
+    step w (.request m h k ty name d) = .ok (createRaw w me h k ty name d (name != ""), .ok) := by
+  refine step_of_core_noGarbage (request_creates hm hf hfind) ?_
+  intro s hs
+  simp only [createRaw, addHandle, alloc, List.mem_append, List.mem_singleton] at hs
+  rcases hs with hs | rfl
+  · exact owned_mono_handles (w := w) (w1 := createRaw w me h k ty name d (name != "")) rfl
+      (fun p hp => List.mem_cons_of_mem _ hp) (hi.noGarbage s hs)
+  · exact (owned_iff _ _).mpr (Or.inl ⟨(h, w.next), by simp [createRaw, addHandle, alloc], rfl⟩)
+
+theorem create_step_refuses {w : World} (hi : Inv w) {m h : Nat} {k : Kind} {ty : Ty} {name : String} {d : Int} {sid : Nat}
+    (hm : (getM w m).isSome = true) (hf : freeSlot w h = true) (hn : name ≠ "") (hfind : find w m k ty name = some sid) :
+    step w (.createShared m h k ty name d) = .ok (w, .none) ∧
+    step w (.createPersistent m h k ty name d) = .ok (w, .none) := by
+  obtain ⟨me, hme⟩ := Option.isSome_iff_exists.mp hm
+  constructor
+  · simp [step, core, createShared, hme, hf, hn, hfind, gc_id hi]
+  · simp [step, core, createPersistent, hme, hf, hn, hfind, gc_id hi]
+
 end OVM.Registry
